@@ -7,7 +7,8 @@ CONSTANTS
   Variant = "code"
   MaxPert = 0
   Rounds = 14
-  OwnConds <- BBoth
+  OwnConds <- OCAll
+  GenSels <- BNo
   ScaleRevs <- BNo
 INVARIANTS C07_OneMove C07_HookOrder C07_Gate C07_OldStay C07_NonRevNow C08_Linear C07_StuckWaits
 PROPERTIES C01_QuietWhenDone
